@@ -80,7 +80,8 @@ func inflateAll(payload []byte) ([]byte, error) {
 func part12(n int) {
 	caseNo := 0
 	wireNo := 0
-	for rep.Cases < n && !rep.TooMany() {
+	start := rep.Cases
+	for rep.Cases-start < n && !tooMany() {
 		wireNo++
 		senderClient := rng.Intn(2) == 0
 		comp := rng.Intn(2) == 0
@@ -106,8 +107,11 @@ func part12(n int) {
 			}
 			t := 1 + rng.Intn(2)
 			l := genLength(flimit, caseNo)
-			if flimit <= 7 && l > 4000 {
-				l = rng.Intn(200) // thousands of tiny frames cost the model quadratic time
+			if !big && l > 200000 {
+				l = 65538 + rng.Intn(130000)
+			}
+			for l > 300 && l/flimit*l > 3000000 {
+				l /= 2 // (number of frames) x (message length) is what the model's list appends cost
 			}
 			if big && i == 0 {
 				l = (1 << 20) + rng.Intn(3<<20)
@@ -123,6 +127,10 @@ func part12(n int) {
 		}
 		// receiver limits: unlimited, exactly the longest message, or comfortably above
 		rcfg.Limit = pick(0, 0, maxLen, maxLen+1, 2*maxLen+100)
+		if rcfg.Limit != 0 && rcfg.Limit < 125 {
+			// the implementation applies MessageLengthLimit to control payloads as well (not a C12 question)
+			rcfg.Limit = 125
+		}
 		if comp && rcfg.Limit != 0 {
 			// the limit also applies to the compressed payload, which may be a few bytes longer than the message
 			rcfg.Limit = 2*maxLen + 100
@@ -161,7 +169,7 @@ func part12(n int) {
 				perCall[i] = append(perCall[i], f)
 			}
 		}
-		if !big && modelable(scfg) {
+		if !big && modelable(scfg) && (thorough || maxLen <= 70000 || wireNo%3 == 0) {
 			if d := compareModel(model, sep, sres); d != "" {
 				finding("mismatch", "C12", "ws-sender-model", "sender: "+d, rp)
 			}
@@ -171,7 +179,12 @@ func part12(n int) {
 			continue
 		}
 		// ---- the wire alone, with an independent decoder
-		checkSenderWire(scfg, calls, perCall, rp)
+		if checkSenderWire(scfg, calls, perCall, rp) {
+			// the wire itself is not RFC 6455: what the receiver makes of it is not a round-trip question
+			rep.Case("sender-wire-broken", false)
+			rep.Stat("12:wire:broken-by-sender")
+			continue
+		}
 		var wire []byte
 		for _, w := range sep.writes {
 			wire = append(wire, w...)
@@ -225,8 +238,8 @@ func part12(n int) {
 		if len(wire) > 20000 && len(segs) > 3 {
 			segs = segs[:3]
 		}
-		for _, sg := range segs {
-			if rep.Cases >= n+200 {
+		for si, sg := range segs {
+			if rep.Cases-start >= n+200 {
 				break
 			}
 			caseNo++
@@ -243,7 +256,8 @@ func part12(n int) {
 			key := fmt.Sprintf("12/%s/comp=%v/client=%v/fl=%d/seg=%s/n=%d/sp=%v", classOfCalls(calls), comp, senderClient, flimit, sg.Kind, len(calls), spliced != "")
 			rep.Case(key, len(wire) >= 2)
 			rep.Stat("12:seg:" + sg.Kind)
-			if !big && modelable(rcfg) {
+			if !big && modelable(rcfg) && (thorough || len(wire) <= 8192 || (si == 0 && (len(wire) <= 70000 || wireNo%3 == 0))) {
+				rep.Stat("12:model-runs")
 				if d := compareModel(model, rep1, res); d != "" {
 					finding("mismatch", "C12", "ws-receiver-model", "receiver: "+d, rep_)
 				}
@@ -302,7 +316,7 @@ func classOfCalls(cs []call) string {
 }
 
 // what WriteMessage put on the wire, checked without any nbio code
-func checkSenderWire(sc cfg, calls []call, perCall [][]rawFrame, rp replay12) {
+func checkSenderWire(sc cfg, calls []call, perCall [][]rawFrame, rp replay12) (wireBroken bool) {
 	for i, c := range calls {
 		fs := perCall[i]
 		bad := func(sig, what string) {
@@ -318,6 +332,11 @@ func checkSenderWire(sc cfg, calls []call, perCall [][]rawFrame, rp replay12) {
 		}
 		if !compressed && sc.WComp && (c.T == 1 || c.T == 2) {
 			bad("wire-not-compressed", "compression negotiated but the message was sent uncompressed")
+		}
+		if c.T >= 8 && len(fs) != 1 {
+			bad("control-frame-fragmented", fmt.Sprintf("a control message of %d bytes was written as %d frames (MaxWebsocketFramePayloadSize=%d): RFC 6455 5.5 forbids fragmented control frames, the peer fails the connection", len(c.P), len(fs), sc.FrameLimit))
+			wireBroken = true
+			continue
 		}
 		var body []byte
 		for j, f := range fs {
@@ -354,6 +373,7 @@ func checkSenderWire(sc cfg, calls []call, perCall [][]rawFrame, rp replay12) {
 			bad("wire-payload", "the concatenated frame payloads differ from the message")
 		}
 	}
+	return
 }
 
 func oracle12(ep *endpoint, res []opRes, want []msg, wantPongs [][]byte, spliced bool, rp replay12) {
@@ -396,6 +416,10 @@ func oracle12(ep *endpoint, res []opRes, want []msg, wantPongs [][]byte, spliced
 	var got [][]byte
 	for _, w := range ep.writes {
 		f, _, ok := decodeOne(w)
+		if ok && ((f.Op >= 8 && !f.Fin) || f.Op == 0) {
+			fail("control-frame-fragmented", fmt.Sprintf("the receiver's reply was written as a fragmented control frame (MaxWebsocketFramePayloadSize=%d): %s", ep.cfg.FrameLimit, hx.Hex(w)))
+			return
+		}
 		if !ok || f.Op != 10 || !f.Fin || f.Masked != ep.cfg.Client {
 			fail("roundtrip-unexpected-reply", fmt.Sprintf("the receiver wrote something that is not a well-formed pong: %s", hx.Hex(w)))
 			return
